@@ -593,6 +593,18 @@ func run(c *mc.Ctx) {
 		}
 	}
 	red := reducedOps(ops)
+	if c.Thorough() {
+		// every third operation of the full alphabet joins the pair alphabet
+		have := map[string]bool{}
+		for _, o := range red {
+			have[o] = true
+		}
+		for i, o := range ops {
+			if i%3 == 0 && !have[o] {
+				red = append(red, o)
+			}
+		}
+	}
 	c.Extra("reduced_alphabet", len(red))
 	for _, a := range red {
 		for _, b := range red {
